@@ -98,6 +98,7 @@ impl Family for C04Family {
             real: &["Authenticator::{make_credential,get_assertion,check_user}", "passkey-client::Client::{register,authenticate}", "lock wrappers"],
             stubs: &["executor", "SimStore seam + reference store", "SimUser (outcome plan = the fault kinds)", "seeded RNG behind the hook"],
             crash_isolated: false,
+            fresh_thread: true,
         }
     }
 
